@@ -58,7 +58,6 @@ structure Outcome where
   device : Status
   errors : List ErrKey
   hasData : Bool               -- the response map is non-empty
-  panics : Bool := false
   deriving DecidableEq, Repr
 
 def prim (parses accepts : Bool) : Bytes → Bytes → Option Bool :=
@@ -71,33 +70,32 @@ def issuerAuthentication (f : Facts) : Bool :=
     ⟨[], if f.issuerPayloadAttached then some [] else none, [], false⟩ f.issuerAlg none none == .success &&
   f.msoDecodes && f.docTypeMatches && f.digestsMatch
 
-/-- `device_authentication`: `none` = panic (`GenericArray::from_slice` on a wrong length) -/
-def deviceAuthentication (f : Facts) : Option Bool :=
-  if !f.issuerPayloadAttached then some false else
-  if !f.msoDecodes then some false else
+/-- `device_authentication` (coordinates of a wrong length are an error since the C15 `fix:`
+commit; at the pinned commit they panicked in `GenericArray::from_slice`, see Model/Partial.lean) -/
+def deviceAuthentication (f : Facts) : Bool :=
+  if !f.issuerPayloadAttached then false else
+  if !f.msoDecodes then false else
   match f.deviceKey with
-  | .compressed => some false
-  | .okp => some false
-  | .ecBadLength => none
+  | .compressed => false
+  | .okp => false
+  | .ecBadLength => false
   | .p256 onCurve =>
-    if !onCurve then some false else
-    if !f.deviceAuthIsSignature then some false else
-    some (verifySign1 (-7) (prim f.deviceSigParses f.deviceSigAccepts)
+    if !onCurve then false else
+    if !f.deviceAuthIsSignature then false else
+    (verifySign1 (-7) (prim f.deviceSigParses f.deviceSigAccepts)
       ⟨[], if f.devicePayloadAttached then some [] else none, [], false⟩ f.deviceAlg (some []) none == .success)
 
 /-- `handle_response` -/
 def handleResponse (f : Facts) : Outcome :=
-  if !(f.decrypts && f.decodes) then ⟨.unchecked, .unchecked, [.decryption], false, false⟩ else
+  if !(f.decrypts && f.decodes) then ⟨.unchecked, .unchecked, [.decryption], false⟩ else
   if !(f.hasDocuments && f.hasMdlDoc && f.x5chainPresent && f.x5chainParses && f.namespacesPresent && f.coreNamespacePresent) then
-    ⟨.unchecked, .unchecked, [.parsing], false, false⟩
+    ⟨.unchecked, .unchecked, [.parsing], false⟩
   else
-    match deviceAuthentication f with
-    | none => ⟨.unchecked, .unchecked, [], false, true⟩
-    | some dev =>
-      let (issuer, ierrs) :=
-        if f.chainErrors == 0 then
-          if issuerAuthentication f then (Status.valid, []) else (Status.invalid, [ErrKey.issuerAuth])
-        else (Status.invalid, [ErrKey.certificate])
-      ⟨issuer, if dev then .valid else .invalid, (if dev then [] else [.deviceAuth]) ++ ierrs, true, false⟩
+    let dev := deviceAuthentication f
+    let (issuer, ierrs) :=
+      if f.chainErrors == 0 then
+        if issuerAuthentication f then (Status.valid, []) else (Status.invalid, [ErrKey.issuerAuth])
+      else (Status.invalid, [ErrKey.certificate])
+    ⟨issuer, if dev then .valid else .invalid, (if dev then [] else [.deviceAuth]) ++ ierrs, true⟩
 
 end IsoMdl.ReaderAuth
